@@ -70,7 +70,20 @@ LAYOUTS = {
               ["WS: /\\s+/;", "CommentLine: /\\/\\/.*/;", "CS: '/*';", "CE: '*/';",
                "NotComment: /((\\*[^\\/])|[^\\s*\\/]|\\/[^\\*])+/;"],
               [" ", "\n", "/* x */", " /* a /* n */ b */ ", "// c\n", "/**/", "/* l1\n l2 é */"]),
+    # other ways of writing the Layout rule: a direct EMPTY alternative, a layout that is
+    # not nullable, left recursion, a single optional token
+    "plusempty": (["Layout: LayoutItem+ | EMPTY;", "LayoutItem: WS | CommentLine;"],
+                  ["WS: /\\s+/;", "CommentLine: /\\/\\/.*/;"],
+                  [" ", "\n", "// c\n", " // x y\n  ", "//\n", "\t"]),
+    "plus": (["Layout: LayoutItem+;", "LayoutItem: WS;"], ["WS: /\\s+/;"],
+             [" ", "\n", "  ", "\t", " \n ", "\r\n"]),
+    "leftrec": (["Layout: Layout LayoutItem | EMPTY;", "LayoutItem: WS | CommentLine;"],
+                ["WS: /\\s+/;", "CommentLine: /\\/\\/.*/;"],
+                [" ", "\n", "// c\n", " // x y\n  ", "//\n", "\t"]),
+    "optws": (["Layout: WS | EMPTY;"], ["WS: /\\s+/;"],
+              [" ", "\n", "  ", "\t", " \n ", "\r\n"]),
 }
+LAYOUT_KINDS = ["ws", "line", "block", "plusempty", "plus", "leftrec", "optws"]
 
 
 def with_layout(g, kind):
@@ -486,3 +499,129 @@ def render_input(g, tokens, rng=None, seps=None, foreign_at=None, kinds=None,
         prev = word
     text += trail if trail is not None else ""
     return text, lexemes
+
+
+# ---------------------------------------------------------------------------
+# Documents of the grammar LANGUAGE (rustemo-compiler/src/lang/rustemo.rustemo): random
+# syntactically valid files that use every construct of that grammar, with names drawn
+# from small pools that contain the names the compiler itself uses (STOP, EMPTY, AUG,
+# Layout, the helper names X1/X0/XOpt of the regex-like operators), Rust keywords and
+# names that are not Rust identifiers (Name allows dots).
+DOC_RULE_NAMES = ["S", "A", "B", "C", "A1", "A0", "AOpt", "B1", "Ta1", "Layout", "STOP", "EMPTY", "AUG", "AUGL",
+                  "fn", "Self", "a.b", "A_b", "_x"]
+DOC_TERM_NAMES = ["Ta", "Tb", "Tc", "Td", "Ta1", "STOP", "Num", "type", "t.x", "Ta0"]
+DOC_STRS = ["'a'", "'b'", "'c'", "'+'", "','", "\"x y\"", "''", "'\\''", "'é'", "'ab'", "'terminals'"]
+DOC_REGEXES = ["/a+/", "/\\d+/", "/[a-c]+/", "/a*/", "/(/", "/b|bb/", "/\\//", "/./", "/[^a]/"]
+DOC_KINDS = ["Add", "Mul", "A", "S", "a.b", "fn", "T1", "x_y", "Ta"]
+DOC_OPS = ["*", "+", "?", "*!", "+!", "?!"]
+DOC_CONSTS = ["5", "0", "1.5", "true", "'z'", "\"x y\"", "99999999999", "-1.0e3"]
+
+
+def docgen(rng):
+    # `odd`: how often an unusual choice is made (a compiler-reserved or helper-like name, a
+    # name that is not a Rust identifier, an undefined reference, a broken recogniser);
+    # with odd = 0 the document is an ordinary grammar
+    odd = rng.choice([0.0, 0.01, 0.03, 0.08, 0.2])
+
+    def pick(pool, nnormal):
+        return rng.choice(pool) if rng.random() < odd * 2 else rng.choice(pool[:nnormal])
+
+    nrules = rng.choice([1, 2, 2, 3, 3, 4])
+    rule_names = ["S"] if rng.random() < 0.8 else []
+    while len(rule_names) < nrules:
+        n = pick(DOC_RULE_NAMES, 4)
+        if n not in rule_names or rng.random() < odd / 2:
+            rule_names.append(n)
+    nterms = rng.randint(1, 4)
+    term_names = []
+    while len(term_names) < nterms:
+        n = pick(DOC_TERM_NAMES, 4)
+        if n not in term_names:
+            term_names.append(n)
+    used_strs = []
+
+    def symbol():
+        if rng.random() < odd:
+            return rng.choice(DOC_RULE_NAMES + DOC_TERM_NAMES)
+        r = rng.random()
+        if r < 0.5:
+            return rng.choice(term_names)
+        if r < 0.83:
+            return rng.choice(rule_names)
+        if r < 0.93:
+            s_ = pick(DOC_STRS, 5)
+            used_strs.append(s_)
+            return s_
+        return "EMPTY"
+
+    def prod_meta():
+        ms = []
+        for _ in range(rng.choice([1, 1, 2, 3])):
+            r = rng.random()
+            if r < 0.35:
+                ms.append(rng.choice(["left", "right", "reduce", "shift", "dynamic", "nops", "nopse"]))
+            elif r < 0.55:
+                ms.append(pick(["1", "2", "15", "0", "99999999999"], 4))
+            elif r < 0.7:
+                ms.append("%s: %s" % (pick(["x", "y1", "kind", "left", "a.b"], 2), pick(DOC_CONSTS, 5)))
+            else:
+                ms.append(pick(["Add", "Mul", "T1", "x_y", "A", "S", "a.b", "fn", "Ta"], 4))
+        return " {" + ", ".join(ms) + "}"
+
+    def rhs(depth):
+        prods = []
+        for _ in range(rng.choice([1, 1, 2, 2, 3])):
+            asg = []
+            for _ in range(rng.choice([1, 1, 2, 2, 3, 4])):
+                if depth < 2 and rng.random() < odd / 2:
+                    ref = "(" + rhs(depth + 1) + ")"
+                else:
+                    ref = symbol()
+                if rng.random() < 0.25 and ref != "EMPTY":
+                    ref += pick(DOC_OPS, 3)
+                    if rng.random() < 0.25:
+                        ref += "[" + ", ".join(pick(term_names + ["nb", "Zz", "A"], len(term_names))
+                                               for _ in range(1 if rng.random() > odd else 2)) + "]"
+                r = rng.random()
+                if r < 0.12:
+                    ref = "%s=%s" % (pick(["a", "b", "x1", "left", "fn", "a.b"], 3), ref)
+                elif r < 0.18:
+                    ref = "%s?=%s" % (rng.choice(["a", "b", "has"]), ref)
+                asg.append(ref)
+            p_ = " ".join(asg)
+            if rng.random() < 0.25:
+                p_ += prod_meta()
+            prods.append(p_)
+        return " | ".join(prods)
+
+    lines = []
+    if rng.random() < odd / 4:
+        lines.append("import 'other.rustemo'%s;" % rng.choice(["", " as o"]))
+    for n in rule_names:
+        ann = ("@vec\n" if rng.random() > odd else "@x\n") if rng.random() < 0.06 else ""
+        rm = prod_meta() if rng.random() < 0.1 else ""
+        lines.append("%s%s%s: %s;" % (ann, n, rm, rhs(0)))
+    tl = []
+    for k, n in enumerate(term_names):
+        r = rng.random()
+        rec = ("'%s'" % "abcd"[k]) if r < 0.55 else pick(DOC_REGEXES, 3)
+        if rng.random() < odd:
+            rec = rng.choice(DOC_STRS + [""])
+        meta = ""
+        if rng.random() < 0.15:
+            meta = " {" + ", ".join(rng.choice(["prefer", "finish", "nofinish", "left", "right", "reduce", "shift",
+                                                "dynamic", "5", "15", "x: 1", "kind: 'q'"])
+                                    for _ in range(rng.choice([1, 1, 2]))) + "}"
+        tl.append("%s: %s%s;" % (n, rec, meta))
+    # inline strings need a terminal with that recogniser
+    for k, s_ in enumerate(dict.fromkeys(used_strs)):
+        if rng.random() >= odd:
+            tl.append("Q%d: %s;" % (k, s_))
+    if rng.random() < odd / 2 and tl:
+        tl.append(rng.choice(tl))
+    rng.shuffle(tl)
+    if tl and rng.random() >= odd / 4:
+        lines.append("terminals")
+        lines += tl
+    sep = rng.choice(["\n", "\n", "\n", " ", "\r\n", "\n// c\n", " /* c */ "])
+    return sep.join(lines) + "\n"
